@@ -183,3 +183,58 @@ Proof.
   destruct n; cbn [random_permutation_fast]; [discriminate|]. intros E. apply fy_loop_coins in E.
   unfold fisher_yates. replace (S n - 1)%nat with n by lia. exact E.
 Qed.
+
+(* ---- surjectivity: every permutation of 0..n-1 is produced by (exactly one) admissible coin vector ---------- *)
+Lemma perm_agree_prefix {A} : forall (l l' : list A) m, Permutation l l' -> length l = S m ->
+  (forall p, (p < m)%nat -> nth_error l p = nth_error l' p) -> l = l'.
+Proof.
+  induction l as [|x t IH]; intros l' m P L H; [discriminate|].
+  destruct l' as [|x' t']; [apply Permutation_sym, Permutation_nil in P; discriminate|].
+  destruct m as [|m].
+  - destruct t; [|discriminate]. apply Permutation_length_1_inv in P. now symmetry.
+  - pose proof (H O ltac:(lia)) as H0. cbn in H0. injection H0 as <-.
+    f_equal. apply (IH t' m).
+    + eapply Permutation_cons_inv. exact P.
+    + cbn in L. lia.
+    + intros p Hp. apply (H (S p)). lia.
+Qed.
+
+Theorem fy_coins_surj n : forall k i pi target, length pi = n -> (i + k + 1 = n)%nat -> NoDup pi -> Permutation pi target ->
+  (forall p, (p < i)%nat -> nth_error target p = nth_error pi p) ->
+  exists cs, admissible k i n cs /\ fy_coins k i pi cs = Some target.
+Proof.
+  induction k as [|k IH]; intros i pi target L Hk ND P Hpre.
+  - exists []. split; [exact I|]. cbn. f_equal. apply (perm_agree_prefix pi target i P); [lia|].
+    intros p Hp. symmetry. now apply Hpre.
+  - assert (Lt : length target = n) by (apply Permutation_length in P; congruence).
+    assert (NDt : NoDup target) by (eapply Permutation_NoDup; eassumption).
+    destruct (nth_error target i) as [y|] eqn:Ey; [|apply nth_error_None in Ey; lia].
+    assert (Hy : In y pi) by (eapply Permutation_in; [apply Permutation_sym; exact P | eapply nth_error_In; exact Ey]).
+    apply In_nth_error in Hy. destruct Hy as (j & Ej).
+    assert (Lj : (j < n)%nat) by (rewrite <- L; apply nth_error_Some; congruence).
+    assert (Hj : (i <= j)%nat).
+    { destruct (le_lt_dec i j) as [|Hlt]; [assumption|]. exfalso.
+      pose proof (Hpre j Hlt) as E. rewrite Ej, <- Ey in E.
+      apply (proj1 (NoDup_nth_error target) NDt) in E; lia. }
+    destruct (swap_idx_total pi i j ltac:(lia) ltac:(lia)) as (pi1 & Sw).
+    pose proof (swap_idx_perm _ _ _ _ Sw) as P1. pose proof (swap_idx_nth _ _ _ _ Sw) as (L1 & _ & _ & T).
+    destruct (IH (S i) pi1 target) as (cs & A & F); try lia.
+    + eapply Permutation_NoDup; eassumption.
+    + eapply Permutation_trans; [apply Permutation_sym; exact P1 | exact P].
+    + intros p Hp. rewrite T. unfold transp. destruct (Nat.eqb_spec p i) as [->|NE].
+      * congruence.
+      * destruct (Nat.eqb_spec p j); [lia|]. apply Hpre. lia.
+    + exists (N.of_nat (j - i) :: cs). split.
+      * cbn [admissible]. split; [lia | exact A].
+      * cbn [fy_coins]. replace (i + N.to_nat (N.of_nat (j - i)))%nat with j by lia. now rewrite Sw.
+Qed.
+
+Theorem fisher_yates_surj n target : (1 <= n)%nat -> Permutation (iota n) target ->
+  exists cs, admissible (n - 1) 0 n cs /\ fisher_yates n cs = Some target.
+Proof.
+  intros Hn P. apply fy_coins_surj; try assumption.
+  - apply iota_length.
+  - lia.
+  - apply NoDup_iota.
+  - intros p Hp. lia.
+Qed.
